@@ -52,11 +52,19 @@ func oracleC13(l *harness.Live) (c struct {
 	if !ok || p.Start != nil {
 		return c, harness.Failf("a location path", fmt.Sprintf("%T", l.AST), "C13 cases are location paths")
 	}
-	want, err := refNodes(l)
-	if err != nil {
-		return c, refFailure(err)
+	// "self_only": the path carries a positional predicate on an axis other than child.
+	// No property states what such a step selects (C03 claims the child axis), so the
+	// reference is not consulted; the relations of C13 - the same set from every start
+	// node, through the composed absolute path, and under the four wrappers - hold for
+	// any path and are compared engine against engine.
+	selfOnly, _ := l.Params["self_only"].(bool)
+	if !selfOnly {
+		want, err := refNodes(l)
+		if err != nil {
+			return c, refFailure(err)
+		}
+		c.want = want.IDs()
 	}
-	c.want = want.IDs()
 	sel := func(e xast.Expr, from *xdoc.Node) ([]int, *harness.Failure) {
 		x := *l
 		x.AST, x.Expr, x.Ctx = e, xast.Render(e), from
@@ -80,7 +88,10 @@ func oracleC13(l *harness.Live) (c struct {
 	if f != nil {
 		return c, f
 	}
-	if !harness.EqualInts(here, c.want) {
+	if selfOnly {
+		c.want = here
+		c.labels = append(c.labels, "positional-last-step")
+	} else if !harness.EqualInts(here, c.want) {
 		return c, harness.Failf(describe(l.Doc, c.want), describe(l.Doc, here), "set(Select) from the start node differs from the XPath 1.0 denotation")
 	}
 	if p.Abs {
@@ -196,12 +207,23 @@ func TestC13Rapid(t *testing.T) {
 			abs = 10
 		}
 		var p *xast.Path
-		if rapid.Bool().Draw(rt, "withpreds") {
+		params := map[string]interface{}{}
+		if rapid.IntRange(0, 5).Draw(rt, "positional") == 5 {
+			// a positional predicate on the last step, whatever its axis
+			p = g.AxisPath(ctx, xgen.PathOpts{MaxSteps: 3, AbsShare: abs, DSlash: 2})
+			if st, ok := p.Steps[len(p.Steps)-1].(*xast.Step); ok {
+				st.Preds = []xast.Expr{g.PosPred()}
+				if st.Abbr && (st.Axis == "self" || st.Axis == "parent") {
+					st.Abbr = false // .[1] and ..[1] have no abbreviated spelling
+				}
+				params["self_only"] = true
+			}
+		} else if rapid.Bool().Draw(rt, "withpreds") {
 			p = g.AxisPath(ctx, xgen.PathOpts{MaxSteps: 3, PredDepth: 1, PredShare: 4, AbsShare: abs, DSlash: 2})
 		} else {
 			p = g.AxisPath(ctx, xgen.PathOpts{MaxSteps: 3, AbsShare: abs, DSlash: 2})
 		}
-		l := &harness.Live{Property: "C13", Check: "C13/composition", Doc: doc, Ctx: ctx, AST: p, Expr: xast.Render(p), Flavour: flavourOf(rt)}
+		l := &harness.Live{Property: "C13", Check: "C13/composition", Doc: doc, Ctx: ctx, AST: p, Expr: xast.Render(p), Flavour: flavourOf(rt), Params: params}
 		info, f := oracleC13(l)
 		if f != nil {
 			if inconclusive(uC13, f) {
